@@ -34,6 +34,27 @@ def digests(name, lo, hi, seed, tier="quick"):
     return out
 
 
+def digests_in_forked_child(name, lo, hi, seed):
+    """The batch driver runs every chunk in a forked child of a process that has imported everything
+    but executed nothing: the same here (catches fork-related state such as Zarr resetting its IO loop)."""
+    import pickle
+
+    r, w = os.pipe()
+    pid = os.fork()
+    if pid == 0:
+        try:
+            os.close(r)
+            with os.fdopen(w, "wb") as f:
+                f.write(pickle.dumps(digests(name, lo, hi, seed)))
+        finally:
+            os._exit(0)
+    os.close(w)
+    with os.fdopen(r, "rb") as f:
+        data = f.read()
+    os.waitpid(pid, 0)
+    return pickle.loads(data)
+
+
 def main():
     a = sys.argv[1:]
     if a and a[0] == "--emit":
@@ -56,6 +77,7 @@ def main():
     checks = checks or [c for c in ALL if os.path.exists(os.path.join(VERIF, "checks", c.lower() + ".py"))]
     bad = 0
     for name in checks:
+        d0 = digests_in_forked_child(name, 0, n, seed)  # first: the parent has executed nothing yet
         d1 = digests(name, 0, n, seed)
         # unrelated work in between (other seeds), then again in the same interpreter
         digests(name, n, n + 5, seed + 1)
@@ -82,6 +104,11 @@ def main():
                     bad += 1
                     idx = [k for k, (x, y) in enumerate(zip(d1, o)) if x != y][:5]
                     msg += f" MISMATCH at indices {idx}"
+        sf = sum(1 for x, y in zip(d1, d0) if x == y)
+        msg += f", forked-child {sf}/{n}"
+        if sf != n:
+            bad += 1
+            msg += f" MISMATCH(fork) at {[k for k, (x, y) in enumerate(zip(d1, d0)) if x != y][:5]}"
         if same12 != n:
             bad += 1
             msg += f" MISMATCH(same interpreter) at {[k for k, (x, y) in enumerate(zip(d1, d2)) if x != y][:5]}"
